@@ -3,6 +3,7 @@ module verif/harness
 go 1.23
 
 require (
+	github.com/BurntSushi/toml v1.2.1
 	github.com/cespare/xxhash/v2 v2.2.0
 	github.com/lindb/common v0.0.6
 	github.com/lindb/lindb v0.0.0
@@ -10,7 +11,6 @@ require (
 )
 
 require (
-	github.com/BurntSushi/toml v1.2.1 // indirect
 	github.com/antlr4-go/antlr/v4 v4.13.0 // indirect
 	github.com/caarlos0/env/v7 v7.1.0 // indirect
 	github.com/coreos/go-semver v0.3.0 // indirect
